@@ -55,6 +55,7 @@ fn parse_match(it: &mut LexIterator) -> ParseResult {
     it.eat(&Token::Match, "match")?;
     let cond = it.parse(&parse_expression, "match", start)?;
     it.eat(&Token::NL, "match")?;
+    it.eat_while(&Token::NL);
     let cases = it.parse_vec(&parse_match_cases, "match", start)?;
     let end = cases.last().cloned().map_or(cond.pos, |case| case.pos);
 
